@@ -8,7 +8,10 @@
 (*   {"e":"q","now":T,"late":0|1,"client":c,                               *)
 (*                     "shards":[{"id":s,"size":k,"S":[..]}],              *)
 (*                     "lookbacks":[{"id":s,"size":k,"L":l,"S":[..]}]}     *)
-(* Every line must be a step of ShardHistory: Reset, RingChange or Query.  *)
+(*   {"e":"sq","now":T,"late":0|1,"client":c,                              *)
+(*                     "subs":[{"mem":[..],"id":s,"size":k,"S":[..]}]}     *)
+(* Every line must be a step of ShardHistory: Reset, RingChange, Query or  *)
+(* SubQuery.                                                               *)
 (* A "q" line whose answers violate a clause is not a Query step; it is    *)
 (* taken as a Reject step that prints which clauses failed (bin/check      *)
 (* turns each into a disagreement) and records the answers anyway so that  *)
@@ -33,6 +36,7 @@ ViewOf(e) ==
        ELSE [mem |-> ids, zone |-> <<>>, ro |-> <<>>, st |-> [i \in ids |-> rec(i).st]]
 
 ShardsOf(e)    == {[id |-> a.id, size |-> a.size, S |-> Range(a.S)] : a \in Range(e.shards)}
+SubsOf(e)      == {[mem |-> Range(a.mem), id |-> a.id, size |-> a.size, S |-> Range(a.S)] : a \in Range(e.subs)}
 LookbacksOf(e) == {[id |-> a.id, size |-> a.size, L |-> a.L, S |-> Range(a.S)] : a \in Range(e.lookbacks)}
 
 Report(what, info) == PrintT(ToJson([line |-> l, kind |-> kind, za |-> za, what |-> what, info |-> info]))
@@ -58,6 +62,17 @@ Step(e) ==
                      ELSE /\ Report("rejected", [now |-> e.now, late |-> e.late, client |-> e.client, failures |-> f,
                                                  view |-> cur, stamp |-> stamp])
                           /\ Record(e.now, e.late, sh, lb)  \* Reject: not a step of ShardHistory
+                          /\ rejects' = rejects + 1
+    \/ /\ e.e = "sq"
+       /\ LET sb == SubsOf(e)
+          IN IF ~QueryWellTimed(e.now, e.late)
+             THEN Report("malformed", [now |-> e.now, late |-> e.late, stamp |-> stamp, clock |-> clock])
+                  /\ rejects' = rejects + 1 /\ UNCHANGED hvars
+             ELSE LET f == SubFailures(sb)
+                  IN IF f = {} THEN SubRecord(e.now, sb) /\ UNCHANGED rejects      \* = SubQuery(e.now, e.late, sb)
+                     ELSE /\ Report("rejected", [now |-> e.now, late |-> e.late, client |-> e.client, failures |-> f,
+                                                 view |-> cur, stamp |-> stamp])
+                          /\ SubRecord(e.now, sb)
                           /\ rejects' = rejects + 1
 
 TraceNext == /\ l <= Len(Trace)
